@@ -210,11 +210,17 @@ pub struct Tree {
 
 pub const BIG: usize = 70 * 1024;
 
+pub const N_CONTENT_KINDS: usize = 4;
+
+/// Content kinds: 0 empty, 1 short (its own path), 2 70 KiB of highly compressible text,
+/// 3 70 KiB of poorly compressible text: xorshift64* output mapped onto a 64-symbol ASCII alphabet
+/// (6 bits of entropy per byte; deflate leaves > 50 KiB, i.e. more than any 32 KiB decoder buffer),
+/// seeded by the path.  Everything is valid UTF-8 (one asset type goes through the string loader).
 pub fn make_content(kind: usize, rel: &str) -> Vec<u8> {
-    match kind % 3 {
+    match kind % N_CONTENT_KINDS {
         0 => Vec::new(),
         1 => format!("<{rel}>").into_bytes(),
-        _ => {
+        2 => {
             // 70 KiB of valid UTF-8 that depends on the path and on the position
             let mut v = Vec::with_capacity(BIG + 64);
             let tag = &rel[..rel.len().min(24)];
@@ -230,12 +236,34 @@ pub fn make_content(kind: usize, rel: &str) -> Vec<u8> {
             }
             v
         }
+        _ => {
+            const ALPHA: &[u8; 64] = b"ABCDEFGHIJKLMNOPQRSTUVWXYZabcdefghijklmnopqrstuvwxyz0123456789+/";
+            // FNV-1a of the path as seed (never 0)
+            let mut x: u64 = 0xcbf29ce484222325;
+            for b in rel.bytes() {
+                x = (x ^ b as u64).wrapping_mul(0x100000001b3);
+            }
+            x |= 1;
+            let mut v = Vec::with_capacity(BIG + 8);
+            while v.len() < BIG {
+                x ^= x >> 12;
+                x ^= x << 25;
+                x ^= x >> 27;
+                let mut r = x.wrapping_mul(0x2545F4914F6CDD1D);
+                for _ in 0..8 {
+                    v.push(ALPHA[(r >> 58) as usize]);
+                    r <<= 6;
+                }
+            }
+            v.truncate(BIG);
+            v
+        }
     }
 }
 
 impl Tree {
     /// `name_rot`: class i gets NAMES[(i + name_rot) % 4]; `content_rot`: file j (depth-first order)
-    /// gets content kind (j + content_rot) % 3 of {empty, short, 70 KiB}.
+    /// gets content kind (j + content_rot) % 4 of {empty, short, 70 KiB compressible, 70 KiB incompressible}.
     pub fn instantiate(shape: &[Node], name_rot: usize, content_rot: usize) -> Tree {
         let nm = names();
         let mut t = Tree { files: vec![], dirs: vec![] };
